@@ -264,7 +264,7 @@ func richSchema() *jsonschema.Schema {
 	return &jsonschema.Schema{
 		ID: "http://h/rich.json", Title: "t", Comment: "c", Type: "", Types: []string{"object", "integer"}, Enum: []any{map[string]any{"a": 1.0}, 1.0}, Const: &c,
 		Minimum: &one, MultipleOf: &one, ExclusiveMinimum: &one, MinLength: &n, MaxContains: &n, Pattern: "a", Format: "x", Required: []string{"a"}, Default: json.RawMessage(`{"a":[1]}`), Examples: []any{[]any{1.0}},
-		DependencyStrings: map[string][]string{"a": {"b"}}, DependencySchemas: map[string]*jsonschema.Schema{"b": {}}, DependentRequired: map[string][]string{"a": {"b"}}, Vocabulary: map[string]bool{"x": true},
+		DependencyStrings: map[string][]string{"a": {"b"}}, DependencySchemas: map[string]*jsonschema.Schema{"b": {}}, DependentRequired: map[string][]string{"a": {"b"}},
 		Extra: map[string]any{"x-extra": map[string]any{"a": map[string]any{"type": "integer"}}}, UniqueItems: true, ReadOnly: true, Deprecated: true, ContentEncoding: "base64", Anchor: "anc", DynamicAnchor: "dyn",
 		Items: &jsonschema.Schema{}, PrefixItems: []*jsonschema.Schema{{}}, Properties: map[string]*jsonschema.Schema{"a": {}}, PropertyOrder: []string{"a"}, AllOf: []*jsonschema.Schema{{}}, Not: &jsonschema.Schema{}, If: &jsonschema.Schema{},
 		Defs: map[string]*jsonschema.Schema{"": {}}, DependentSchemas: map[string]*jsonschema.Schema{"a": {}}, PatternProperties: map[string]*jsonschema.Schema{"^a": {}},
